@@ -1,5 +1,6 @@
 import QV.Wire
 import QV.Shared.SchedWire
+import QV.Shared.HandlerWire
 import QV.C24.Spec
 /-! Driver side of the C24 correspondence check. -/
 namespace QV.C24
@@ -70,6 +71,10 @@ def handle (inp out : Sexp) : CaseResult :=
   | .list [.atom "corpus", p] => handleProgram "corpus" p out
   | .list [.atom "table", p] => handleProgram "table" p out
   | .list [.atom "random", p] => handleProgram "random" p out
+  | .list [.atom "ast", instrs, sigs, real] =>
+    -- no `hypB` escape here: for answers computed from the AST the hypothesis is a theorem (`C24_ast_hyp`)
+    HandlerWire.handleAst instrs sigs real out (fun _ _ b _ es => hypB b && frameSpecB b es)
+      (fun b => conflictingPair b.items) tagsOf
   | .list (.atom "fq" :: xs) =>
     match xs.mapM decAccess with
     | none => .bad s!"undecodable history {inp}"
